@@ -61,8 +61,8 @@ def run(pid, tier, args):
             g["structure"] = True
             g["userprods"] = []
         # hand-written Go types (anonymous / embedded structs): structure-independent clauses only
-        for sid in ("static-embedded", "static-anon-two", "static-anon-rec", "static-alias", "static-unicode-names", "static-parseable-twice", "static-embedded-3", "static-forproduction"):
-            gs.append({"id": sid, "structure": False, "root": "", "prods": [], "unions": {}, "userprods": ["EsAmount"] if sid == "static-parseable-twice" else []})
+        for sid in ("static-embedded", "static-anon-two", "static-anon-rec", "static-alias", "static-unicode-names", "static-parseable-twice", "static-embedded-3", "static-forproduction", "static-two-custom"):
+            gs.append({"id": sid, "structure": False, "root": "", "prods": [], "unions": {}, "userprods": {"static-parseable-twice": ["EsAmount"], "static-two-custom": ["EsKey", "EsVal"]}.get(sid, [])})
         src = os.path.join(wd, "harness-src")
         codegen.emit([g for g in gs if g["structure"]], os.path.join(src, "gengram", "gen.go"))
         vhg = os.path.join(wd, "vh-gengram")
@@ -85,6 +85,10 @@ def run(pid, tier, args):
             vd = verdicts.get(g["id"])
             if vd is None:
                 raise Infra("no verdict for %s" % g["id"])
+            if vd.startswith("builderr") and not g["structure"]:
+                # (the hand-written grammars are valid: a Build error - or a parse with the wrong outcome in their maker - is a failure)
+                v.violation("grammar %s: %s" % (g["id"], vd[:300]), {"property": pid, "kind": "ebnf", "grammar": [], "unions": {}, "verdict": vd, "text": ""})
+                continue
             if vd.startswith("builderr"):
                 nbuild += 1
                 log("note: %s does not build: %s" % (g["id"], vd[:150]))
